@@ -104,11 +104,15 @@ var c03LooseSub6 = []c03SubnetCap{{56, 100}}
 
 // ---------- the scenario lattice ----------
 
+// c03ThoroughExtra is added to every thorough depth written in the table below (the table was sized first,
+// the extra level was added after measuring the cost).
+const c03ThoroughExtra = 1
+
 func c03Scenarios() []*c03Scn {
 	var out []*c03Scn
 	add := func(family string, depthQ, depthT int, alpha c03Alpha, sets ...c03Set) *c03Scn {
 		l, n := c03LimitsWith(sets...)
-		s := &c03Scn{name: family + "/" + n, family: family, lim: l, sub4: c03LooseSub, sub6: c03LooseSub6, alpha: alpha, depthQ: depthQ, depthT: depthT}
+		s := &c03Scn{name: family + "/" + n, family: family, lim: l, sub4: c03LooseSub, sub6: c03LooseSub6, alpha: alpha, depthQ: depthQ, depthT: depthT + c03ThoroughExtra}
 		out = append(out, s)
 		return s
 	}
@@ -376,7 +380,8 @@ func TestVerifC03Seq(t *testing.T) {
 		}
 		jobs = append(jobs, &job{scn: scn, depth: d})
 	}
-	debug.SetGCPercent(800)
+	debug.SetGCPercent(400)
+	debug.SetMemoryLimit(5 << 30) // soft limit: collect harder instead of growing towards the worker's ulimit
 	par := 4
 	per := runtime.GOMAXPROCS(0) / par
 	if per < 1 {
